@@ -4813,7 +4813,9 @@ let query_open fi rels =
           let rare =
             if (||) f.f_unsafe (is_nil f.f_ids)
             then None
-            else Some (rare_component s f.f_ids)
+            else (match f.f_cache with
+                  | Some _ -> Some O
+                  | None -> Some (rare_component s f.f_ids))
           in
           bind lockM (fun b ->
             bind get (fun s0 ->
